@@ -382,6 +382,29 @@ def install(m):
     L['with_timezone'] = with_timezone
     L['to_utc'] = with_timezone
 
+    def subsec(m, a, c, rt):
+        """chrono::SubsecRound::{round_subsecs, trunc_subsecs}(digits) on DateTime (leap-second nanoseconds >= 1e9 outside)."""
+        dt = a[0] if isinstance(a[0], DateTime) else deref(m, a[0])
+        dg = a[1]
+        if dg.sym:
+            raise Unsupported('symbolic digit count for round_subsecs')
+        if dg.v >= 9:
+            return dt
+        span = 10 ** (9 - dg.v)
+        civil = dt.ensure_civil(m)
+        down = z3.URem(dt.nanos, z3.BitVecVal(span, B32))
+        if c.method == 'trunc_subsecs':
+            return DateTime(dt.secs, z3.simplify(dt.nanos - down), civil, dt.offset, dt.local)
+        up = z3.BitVecVal(span, B32) - down
+        # chrono: if delta_down == 0 unchanged; else if delta_up <= delta_down: + delta_up else - delta_down
+        go_up = z3.And(down != 0, z3.ULE(up, down))
+        nn = z3.If(go_up, dt.nanos + up, dt.nanos - down)
+        carry = z3.If(z3.UGE(nn, 1000000000), z3.BitVecVal(1, B32), z3.BitVecVal(0, B32))
+        nn = z3.If(z3.UGE(nn, 1000000000), nn - 1000000000, nn)
+        return DateTime(z3.simplify(dt.secs + z3.ZeroExt(32, carry)), z3.simplify(nn), shift_civil(civil, carry), dt.offset, None)
+    L['round_subsecs'] = subsec
+    L['trunc_subsecs'] = subsec
+
     def delta_minutes(m, a, c, rt):
         v = a[0]
         if v.sym:
